@@ -439,7 +439,7 @@ func genFresh(ctx *Ctx, emit func(Case)) {
 		c := randEncConfig(r, smallLen(r))
 		clean := randScript(r, len(c.recips), c.ephRand, -1, 0)
 		for fault := 0; fault < len(clean.Reads); fault++ {
-			for mode := 0; mode < 3; mode++ {
+			for mode := 0; mode < 5; mode++ {
 				c2 := *c
 				sc := scriptCopy(clean, fault, mode)
 				c2.src = &sc
@@ -454,7 +454,7 @@ func genFresh(ctx *Ctx, emit func(Case)) {
 		signer, msg := r.Bytes(32), r.Bytes(smallLen(r))
 		clean := randSigScript(r, -1, 0)
 		for fault := 0; fault < len(clean.Reads); fault++ {
-			for mode := 0; mode < 3; mode++ {
+			for mode := 0; mode < 5; mode++ {
 				s := scriptCopy(clean, fault, mode)
 				failClosed("fresh.sig.fault", fmt.Sprintf("sig.attached %d 0 %s %s %d %s", 1+k%2, keys.Hex(signer), s.Spec(), mib, keys.Hex(msg)), fault)
 				failClosed("fresh.det.fault", fmt.Sprintf("sig.detached %d 0 %s %s %s", 1+k%2, keys.Hex(signer), s.Spec(), keys.Hex(msg)), fault)
@@ -483,7 +483,7 @@ func genFresh(ctx *Ctx, emit func(Case)) {
 		}
 		clean := randScript(r, nb+ns, ephRand, -1, 0)
 		for fault := 0; fault < len(clean.Reads); fault++ {
-			for mode := 0; mode < 3; mode++ {
+			for mode := 0; mode < 5; mode++ {
 				s := scriptCopy(clean, fault, mode)
 				failClosed("fresh.sc.fault", fmt.Sprintf("sc.seal %s %s %s %s %s %d %s", keys.Hex(r.Bytes(32)), jl(boxes), jl(syms), eph, s.Spec(), mib, keys.Hex(r.Bytes(9))), fault)
 			}
